@@ -119,3 +119,28 @@ def in_cycle_without(b, site, cut):
         if site in b.reachable_from(s, cut=set(cut)):
             return True
     return False
+
+
+def credit_leak_after_take(facts, b, tr, tc, pushes):
+    """Forward walk from the credit-take call `tc` over the success edges of every switch derived from its result.
+    Returns the block where a Return (or the take itself) is reached without passing a Push construction, else None."""
+    FAIL = ("Pending", "None", "Break", "Err")
+    seen, st = set(), [x for x in b.succ[tc] if not b.blocks[x]["cleanup"]]
+    while st:
+        x = st.pop()
+        if x in seen or x in pushes:
+            continue
+        seen.add(x)
+        t = b.term(x)
+        if t["k"] == "Return" or x == tc:
+            return x
+        g = guard_at(facts, b, tr, x)
+        for y in b.succ[x]:
+            if b.blocks[y]["cleanup"]:
+                continue
+            if g is not None and g.kind == "discr" and derives_from_call(g.pred, tc):
+                val = [v for sb, v in g.edges if sb == y]
+                if val and all(v in FAIL for v in val):
+                    continue
+            st.append(y)
+    return None
